@@ -60,7 +60,7 @@ pub struct PathSpec {
     pub source: bool,
 }
 
-pub const PATHS: [PathSpec; 19] = [
+pub const PATHS: [PathSpec; 20] = [
     PathSpec { rel: "src/a/F1.tsx", source: true },
     PathSpec { rel: "src/a/F2.ts", source: true },
     PathSpec { rel: "src/ab/F3.tsx", source: true },
@@ -82,9 +82,12 @@ pub const PATHS: [PathSpec; 19] = [
     PathSpec { rel: "src/a-x/F9.ts", source: true },
     // a source-named file whose content is never valid UTF-8 (an editor saving garbage)
     PathSpec { rel: "src/c/Blob.ts", source: true },
+    // a folder that is named like the artifact directory but is not it: a batch compile never
+    // enters a folder called `__isograph`, so nothing inside it is a source
+    PathSpec { rel: "src/c/__isograph/Old.ts", source: false },
 ];
 
-pub const DIRS: [&str; 7] = ["src/a", "src/ab", "src/a/b", "src/c", "src/a/__isograph_like", "src/d", "src/a-x"];
+pub const DIRS: [&str; 8] = ["src/a", "src/ab", "src/a/b", "src/c", "src/a/__isograph_like", "src/d", "src/a-x", "src/c/__isograph"];
 
 pub const BINARY_BLOB: [u8; 12] = [0xff, 0xfe, 0x00, 0x80, 0xc3, 0x28, 0xa0, 0xa1, 0xe2, 0x28, 0xa1, 0x00];
 
